@@ -260,6 +260,101 @@ func genFlowDesc(root, outdir string) {
 	o.p("Definition fd_attr_values : list string := %s.", fdStrList(kinds))
 	o.p("Definition fd_action_dir_keywords : list string := %s.", fdStrList(fdCompared(nfd)))
 
+	// newPdi: is a filter packed while the PDI is still being scanned (with the Source Interface seen so far), or after the
+	// scan (with the PDI's Source Interface)?  in-scan = the call to newSdfFilter sits in a loop that also assigns the
+	// variable passed as its interface argument.
+	npdi := mustFunc(g, gfile, "Gtp5g", "newPdi")
+	var loops []ast.Node
+	calls, inScan := 0, 0
+	assigns := func(n ast.Node, name string) bool {
+		found := false
+		ast.Inspect(n, func(m ast.Node) bool {
+			if a, ok := m.(*ast.AssignStmt); ok {
+				for _, l := range a.Lhs {
+					if id, ok := l.(*ast.Ident); ok && id.Name == name {
+						found = true
+					}
+				}
+			}
+			return true
+		})
+		return found
+	}
+	var walk func(n ast.Node)
+	walk = func(n ast.Node) {
+		ast.Inspect(n, func(m ast.Node) bool {
+			if m == nil || m == n {
+				return true
+			}
+			switch x := m.(type) {
+			case *ast.RangeStmt, *ast.ForStmt:
+				loops = append(loops, x)
+				walk(x)
+				loops = loops[:len(loops)-1]
+				return false
+			case *ast.CallExpr:
+				if sel, ok := x.Fun.(*ast.SelectorExpr); ok && sel.Sel.Name == "newSdfFilter" {
+					if len(x.Args) != 2 {
+						die("%s: newPdi: newSdfFilter call with %d arguments", gfile, len(x.Args))
+					}
+					id, ok := x.Args[1].(*ast.Ident)
+					if !ok {
+						die("%s: newPdi: interface argument of newSdfFilter is not a variable", gfile)
+					}
+					calls++
+					for _, l := range loops {
+						if assigns(l, id.Name) {
+							inScan++
+							break
+						}
+					}
+				}
+			}
+			return true
+		})
+	}
+	walk(npdi.Body)
+	if calls == 0 {
+		die("%s: newPdi: no call of newSdfFilter", gfile)
+	}
+	o.p("Definition fd_pdi_sdf_calls : N := %d.", calls)
+	o.p("Definition fd_pdi_sdf_in_scan : bool := %v.", inScan > 0)
+	// newSdfFilter: the expression deciding the exchange of source and destination
+	nsf := mustFunc(g, gfile, "Gtp5g", "newSdfFilter")
+	var swapExprs []string
+	ast.Inspect(nsf.Body, func(n ast.Node) bool {
+		c, ok := n.(*ast.CallExpr)
+		if !ok {
+			return true
+		}
+		if sel, ok := c.Fun.(*ast.SelectorExpr); ok && sel.Sel.Name == "newFlowDesc" && len(c.Args) == 2 {
+			e := c.Args[1]
+			if id, ok := e.(*ast.Ident); ok {
+				ast.Inspect(nsf.Body, func(m ast.Node) bool {
+					if a, ok := m.(*ast.AssignStmt); ok && len(a.Lhs) == 1 && len(a.Rhs) == 1 {
+						if l, ok := a.Lhs[0].(*ast.Ident); ok && l.Name == id.Name {
+							e = a.Rhs[0]
+						}
+					}
+					return true
+				})
+			}
+			for {
+				pe, ok := e.(*ast.ParenExpr)
+				if !ok {
+					break
+				}
+				e = pe.X
+			}
+			swapExprs = append(swapExprs, exprString(e))
+		}
+		return true
+	})
+	if len(swapExprs) != 1 {
+		die("%s: newSdfFilter: expected exactly one newFlowDesc call", gfile)
+	}
+	o.p("Definition fd_sdf_swap_when : string := %s.", strconv.Quote(swapExprs[0]))
+
 	cs := mustFunc(g, gfile, "", "convertSlice")
 	var shifts, strides []int64
 	ast.Inspect(cs.Body, func(n ast.Node) bool {
